@@ -91,8 +91,24 @@ def gen(cs, rnd, n):
                  for _ in range(rnd.choice([140, 180]))]
             B = B + [PL.parse_ast('{"id": 100, "k1": [[1, 2], [3]], "items": [{"n": 1, "k1": {"a": {"b": [1]}}}]}'), PL.parse_ast('[[["x"]]]')]
         da, db = PL.input_bytes(A), PL.input_bytes(B)
+        big = False
+        if i % 50 == 11 or i % 50 == 31:
+            # a first part of such a length that a number (a string, a word) of the second part lies across the 8192nd / 16384th byte of the whole
+            # input (where readers that take their input in blocks start the next block): the rows of a value do not depend on where it lies
+            tokrow = PL.parse_ast('{"id": 1234567890123456, "k1": [100200300400, -5.25e3, true], "g": "abcdefghijklmnopqrstuvwxyz", "n": 9007199254740993, "items": [{"n": 12345678}]}')
+            db = PL.input_bytes([tokrow] * 3 + B)
+            mark = rnd.choice([8192, 16384])
+            inside = rnd.randrange(8, len(PL.input_bytes([tokrow])) - 2)
+            want = mark - inside
+            da = PL.input_bytes(A)
+            pad = ("str", [120] * max(0, want - len(da) - 3))
+            da = da + PL.input_bytes([pad])
+            da = da + b" " * max(0, want - len(da))
+            big = True
+        # (the big inputs are handed over in reads as large as the reader asks for - a block at a time -, the others byte by byte)
+        dl = {"chunks": [rnd.choice([8192, 65536, 4096])]} if big else {}
         cs.add({"kind": "rel", "rel": "concat", "cfg": PL.mkcfg(), "input": [], "json": js and True,
-                "runs": [{"argv": argv, "stdin": hexs(da + db)}, {"argv": argv, "stdin": hexs(da)}, {"argv": argv, "stdin": hexs(db)},
+                "runs": [dict({"argv": argv, "stdin": hexs(da + db)}, **dl), dict({"argv": argv, "stdin": hexs(da)}, **dl), dict({"argv": argv, "stdin": hexs(db)}, **dl),
                          {"argv": argv, "stdin": ""}]})
 
 
